@@ -632,6 +632,16 @@ func (e *Env) evalBinary(t *EBinary) (Val, error) {
 	case ">>":
 		return Val{T: fmt.Sprintf("(div %s %s)", a.T, pow2Term(b.T)), Ty: mathInt}, nil
 	case "&":
+		// two literals: computed
+		if x, okx := new(big.Int).SetString(a.T, 10); okx && x.Sign() >= 0 {
+			if y, oky := new(big.Int).SetString(b.T, 10); oky && y.Sign() >= 0 {
+				return Val{T: new(big.Int).And(x, y).String(), Ty: mathInt}, nil
+			}
+		}
+		// a single-bit mask: (a / 2^k) mod 2 * 2^k
+		if y, oky := new(big.Int).SetString(b.T, 10); oky && y.Sign() > 0 && new(big.Int).And(y, new(big.Int).Sub(y, big.NewInt(1))).Sign() == 0 {
+			return Val{T: fmt.Sprintf("(* (mod (div %s %s) 2) %s)", a.T, y.String(), y.String()), Ty: mathInt}, nil
+		}
 		if m, ok := maskBits(b.T); ok {
 			return Val{T: fmt.Sprintf("(mod %s %s)", a.T, m), Ty: mathInt}, nil
 		}
